@@ -16,7 +16,7 @@ TEXT = {
                    "expressions (incl. ones sensitive to NumPy's floating-point error mode) must give, "
                    "on every instance and at any time, the outcome recorded on a pristine instance at "
                    "the start of the run (absolute reference against state shared by all instances). "
-                   "Twelve configurations incl. an atom factory returning several classes, NumPy-array atoms, "
+                   "Thirteen configurations incl. accumulator-style atoms whose arithmetic writes into the left operand, an atom factory returning several classes, NumPy-array atoms, "
                    "a table extended by user-defined parenthesis operators (own separator, own "
                    "brackets), a table with function operators but no plain parenthesis and a step "
                    "sequence that omits operators of its table; expressions nested up to 120 deep, numbers cut off at their exponent, "
@@ -99,7 +99,9 @@ TEXT = {
                    "it was. Also: unit objects instead of unit texts as targets of to() and value(), "
                    "exponents written with a negative denominator, Decimal scalars, arrays holding zeros of "
                    "either sign in reciprocal queries, rebase() of a member (its value in its old unit "
-                   "must be what the ledger says), buffers the caller reuses after building a quantity.",
+                   "must be what the ledger says), buffers the caller reuses after building a quantity, "
+                   "plain numbers as targets (to(None), to({})): accepted for dimensionless units, refused "
+                   "for everything else.",
         level_note="Only the clauses about one mutable object through a history are decided; the factor "
                    "formula over all unit triples is sampled as a by-product, not covered. Magnitudes kept "
                    "within 1e+-290; offset/logarithmic units excluded by the statement; bare number to "
